@@ -234,8 +234,38 @@ def check_pattern(ctx, tr, rng, k, j, forced=None):
         ctx.sample({'tree': tr.spec, 'pattern': pats, 'kw': kw, 'flags': fn, 'path_glob': [os.path.relpath(x, root) for x in a[:6]]})
 
 
+def fixed_scenarios(ctx):
+    """Recursive patterns (also ones that themselves begin with `**` / `***`) under every FOLLOW / GLOBSTARLONG combination on
+    the hand-built cycle-free trees with symlinked directories of C06: glob / rglob / match views (deterministic part)."""
+    from .c06 import FIXED_TREES
+    GS, GL_ = (('gstar',),), (('gstarlong',),)
+    lit = lambda x: tuple(('lit', c) for c in x)  # noqa: E731
+    shapes = [[GS], [GL_], [GS, lit('z')], [GS, lit('m'), (('star',),)], [GL_, lit('z')], [lit('m'), GS], [(('star',),), GS, lit('z')],
+              [lit('z')], [lit('m'), (('star',),)], [GS, lit('m')], [GS, GS, lit('z')], [GL_, lit('m'), GS], [(('q',),)], [GS, lit('lnk'), (('star',),)]]
+    fsets = [('GLOBSTARLONG', 'FOLLOW'), ('GLOBSTARLONG',), ('GLOBSTAR', 'FOLLOW'), ('GLOBSTAR',), ('GLOBSTARLONG', 'FOLLOW', 'DOTGLOB'),
+             ('GLOBSTAR', 'GLOBSTARLONG', 'FOLLOW'), ('GLOBSTARLONG', 'FOLLOW', 'NODIR'), ('GLOBSTAR', 'NOUNIQUE')]
+    idx = 0
+    for ti, spec in enumerate(FIXED_TREES):
+        todo = []
+        for segs in shapes:
+            for fn in fsets:
+                idx += 1
+                if ctx.mine(idx):
+                    todo.append((segs, fn))
+        if not todo:
+            continue
+        with T.Tree(spec, 'c16f-') as tr:
+            for segs, fn in todo:
+                toks = gen.join_segments(segs, None, lead=False, trail=False)
+                text = gen.ser(toks)
+                with ctx.case(timeout=20, label=('fixed', ti, text, fn)):
+                    check_pattern(ctx, tr, ctx.rng_for('fx', ti, text, fn), 0, 0, forced=(toks, text, ['EXTGLOB'] + list(fn), text, {}))
+                    ctx.count('fixed_scenario_cases')
+
+
 def run(ctx):
     quick = ctx.quick
+    fixed_scenarios(ctx)
     k = 0
     limit = 100 if quick else 10 ** 9
     while k < limit and not ctx.out_of_time():
